@@ -314,7 +314,7 @@ struct DenSys {
     std::unique_ptr<Sk> B = build(o);
     if (counted && (int)(B->get_num_retained() + s.sk->get_num_retained()) > Rmax) return false;
     // the big-k operand holds a single uncompacted level: the level the merge result compacts must stay within 6 points
-    if (counted && o.label[0] == 'B' && B->get_num_retained() + s.sk->get_num_retained() > 6) return false;
+    if (counted && o.label[0] == 'B' && (form == FORM_INTO || B->get_num_retained() + s.sk->get_num_retained() > 6)) return false;   // (absorbing the state into the big-k operand would later compact a level of 2k' points)
     const std::string cb = sk_canon(*B), ca = sk_canon(*s.sk);
     const uint64_t nb = B->get_n(), na = s.sk->get_n();
     if (!is_wrong) {
